@@ -320,9 +320,10 @@ pub fn format_filesize(size: u64, modifier: &str) -> String {
     let mut space = false;
 
     if let Some(cap) = FILE_SIZE_FORMAT_REGEX.captures(&modifier) {
-        zeroes = cap
-            .name("zeroes")
-            .map_or(-1, |m| m.as_str().parse::<i32>().unwrap());
+        zeroes = cap.name("zeroes").map_or(-1, |m| match m.as_str().parse::<i32>() {
+            Ok(zeroes) => zeroes,
+            _ => error_exit("Unknown file size modifier", modifier.as_str()),
+        });
         space = cap.name("space").map_or(false, |m| m.as_str() == " ");
         modifier = cap
             .name("units")
